@@ -114,7 +114,7 @@ class BlackJAXSMC(SMCSampler):
         rng_key : jax.random.key| None
             JAX random key for reproducibility.
         """
-        self.sampler_kwargs = sampler_kwargs or {}
+        self.sampler_kwargs = dict(sampler_kwargs or {})
         self.sampler_kwargs.setdefault("n_steps", 5 * self.dims)
         self.sampler_kwargs.setdefault("algorithm", "nuts")
         self.sampler_kwargs.setdefault("step_size", 1e-3)
